@@ -3,14 +3,23 @@
 Gen: guarded positional-argument reads of _parse_constant_set/_parse_constant_primitive and the
 stage skeleton of run.load_model.  Correspondence: IndexError behaviour of the real front end on
 constant declarations with n positional arguments vs Model.FrontEnd.readArgs; load_model outcome vs
-Model.FrontEnd.load on the first failing stage.  Oracle: crash oracle over fixtures, token-level
-mutants of them, targeted constructs (constant argument shapes, near-miss regex patterns in pattern
-functions, contradictory invariants) and byte garbage.
+Model.FrontEnd.load on the first failing stage.  Oracle: crash oracle (run.load_model and main.execute
+in-process under ``except BaseException``) over
+
+* the corpus (witnesses of the repaired crashes) and every fixture of the repository,
+* an ENUMERATED, seed independent part (`enumerated_cases`): targeted constructs (constant argument shapes,
+  near-miss regex patterns in pattern functions, degenerate invariants, raw snippets), hand-written probes
+  (harness/c01_probes.py) and role x catalogue over small valid base models (harness/ast_mutate.py: every
+  construct class of the catalogues -- expressions of every ``ast`` class, type annotations, statements,
+  decorators, argument lists, bases, literals, docstrings, names -- in every role the front end dispatches on),
+* SEEDED parts: token-level mutants of the fixtures, positional AST mutants and role mutants (35% with a second
+  construct in another role) of valid models (fixtures that load, generated models, the rich base), byte garbage.
 """
 from __future__ import annotations
 
 import io
 import itertools
+import os
 import pathlib
 import re
 import tokenize
@@ -37,6 +46,8 @@ NEAR_MISS_PATTERNS = [
     "(", ")", "(a", "a)", "a|", "|", "a**", "a+*", "?", "+", "\\", "a\\", "[a", "[a-", "[z-a]", "\\x4", "\\u12", "\\U0001",
     "^a^b$", "^a*?$", "^(a*)*$", "^$", "a$b", "^\\d+$", "^[\\d]$", "^(?:a)$", "^(?P<n>a)$", "^a{1,2}{3}$", ".", "^.*$", "^\\.$",
     "^[\ud800]$", "^\U0001F600$", "^[a-\U0001F600]$", "^a{0}$", "^a{0,}$", "^a{,3}$", "^\\x00$", "^[\\x00-\\x1f]$", "^\\$",
+    "\n", "a\n", "^a$\n", "\n^a$", "*", "* a", "^a{4294967296}$", "^a{4294967295}$", "^a{99999999999999999999}$", "^a{1,4294967296}$", "^(?i)a$", "^\\1$",
+    "^(a)\\1$", "^(?#c)a$", "^(?=a)a$", "^(?<=a*)b$", "^(?P<a>x)(?P<a>y)$", "^\\d\\w\\s\\b$", "^\\A\\Z$", "^[[:alpha:]]$", "^\\p{L}$", "^\\N{DASH}$", "^a\\", "^\\ud800$",
 ]
 
 
@@ -55,13 +66,85 @@ def _site(exc: BaseException) -> str:
     return f"{rel}:{inner.name}"
 
 
+_VIOLATED_IN_RE = re.compile(r"^File .*, line \d+ in ([^:\n]+):")
+
+
+def _site_of(e: BaseException) -> str:
+    """Raising site inside the repository; for a violated contract also the function/class that declares the contract."""
+    site = _site(e)
+    if type(e).__name__ == "ViolationError":
+        m = _VIOLATED_IN_RE.match(str(e))
+        if m:
+            site += ":" + m.group(1).strip()
+    return site
+
+
+# nesting depths beyond which a RecursionError is attributed to the depth of the input (known finding C01-F1): depth of the Python AST or
+# length of an inheritance chain; nesting of parentheses inside a string literal (a pattern: the regex visitors need ~11 frames per group)
+DEEP = 200
+DEEP_PATTERN = 50
+
+
+def max_nesting(text: str) -> Tuple[int, int]:
+    """(largest of: depth of the Python AST, length of an inheritance chain; deepest nesting of parentheses inside a string literal).
+
+    Computed without recursion.  A RecursionError of the front end on an input that is NOT deeply nested in this sense would be a
+    different defect (a genuinely unbounded recursion), so it keeps its site specific sig."""
+    import ast as _ast
+
+    try:
+        tree = _ast.parse(text)
+    except RecursionError:
+        return 10 ** 6, 0
+    except (SyntaxError, ValueError):
+        return 0, 0
+    deepest = 0
+    in_string = 0
+    stack = [(tree, 1)]
+    while stack:
+        node, d = stack.pop()
+        deepest = max(deepest, d)
+        if isinstance(node, _ast.Constant) and isinstance(node.value, str):
+            cur = 0
+            for ch in node.value:
+                if ch in "([{":
+                    cur += 1
+                    in_string = max(in_string, cur)
+                elif ch in ")]}":
+                    cur = max(0, cur - 1)
+        for child in _ast.iter_child_nodes(node):
+            stack.append((child, d + 1))
+    parents = {c.name: [b.id for b in c.bases if isinstance(b, _ast.Name)] for c in tree.body if isinstance(c, _ast.ClassDef)}
+    chain = {name: 1 for name in parents}
+    for _ in range(len(parents)):
+        changed = False
+        for name, ps in parents.items():
+            best = 1 + max([chain.get(q, 0) for q in ps if q != name] or [0])
+            if best > chain[name] and best <= len(parents):
+                chain[name] = best
+                changed = True
+        if not changed:
+            break
+    return max([deepest] + list(chain.values())), in_string
+
+
+def is_deeply_nested(path: pathlib.Path) -> bool:
+    try:
+        a, b = max_nesting(path.read_text(encoding="utf-8", errors="surrogateescape"))
+    except Exception:  # noqa
+        return False
+    return a > DEEP or b > DEEP_PATTERN
+
+
 def load(path: pathlib.Path) -> Dict[str, Any]:
     from aas_core_codegen import run
 
     try:
         res = run.load_model(path)
+    except RecursionError as e:
+        return {"kind": "crash", "exc": "RecursionError", "site": ("deeply-nested-input" if is_deeply_nested(path) else _site_of(e)), "msg": str(e)[:200]}
     except BaseException as e:  # noqa
-        return {"kind": "crash", "exc": type(e).__name__, "site": _site(e), "msg": str(e)[:200]}
+        return {"kind": "crash", "exc": type(e).__name__, "site": _site_of(e), "msg": str(e)[:200]}
     if res[1] is None and res[0] is not None:
         return {"kind": "table"}
     if res[0] is None and isinstance(res[1], str):
@@ -81,8 +164,10 @@ def cli(path: pathlib.Path, scratch: pathlib.Path) -> Dict[str, Any]:
     try:
         rc = m.execute(m.Parameters(path, m.Target.JSONSCHEMA, snippets, scratch / "out"), out, err)
         return {"kind": "done", "rc": rc, "stderr": err.getvalue()}
+    except RecursionError as e:
+        return {"kind": "crash", "exc": "RecursionError", "site": ("deeply-nested-input" if is_deeply_nested(path) else _site_of(e)), "msg": str(e)[:200]}
     except BaseException as e:  # noqa
-        return {"kind": "crash", "exc": type(e).__name__, "site": _site(e), "msg": str(e)[:200]}
+        return {"kind": "crash", "exc": type(e).__name__, "site": _site_of(e), "msg": str(e)[:200]}
     finally:
         tempfile.tempdir = saved
 
@@ -147,16 +232,21 @@ def _valid_bases(ctx: Ctx, fx: List[pathlib.Path]) -> List[str]:
     return _BASES_CACHE
 
 
-RICH_BASE = '''class Kind(Enum):
+# Valid base models for the role based mutants.  RICH_BASE has every role at once (random streams); the small ones are cheap to load
+# (no docstrings except in BASE_DOCS: a docstring costs a docutils run) and together contain every role (enumerated stream).
+RICH_BASE = '''"""Provide a meta-model, see :class:`A`."""
+
+
+class Kind(Enum):
     """Represent a kind."""
 
     One = "one"
-    """First."""
+    """First, see :attr:`Two`."""
 
     Two = "two"
 
 
-@invariant(lambda self: len(self.x) > 0, "X is non-empty.")
+@invariant(lambda self: len(self) > 0, "Code is non-empty.")
 class Code(str, DBC):
     """Represent a code."""
 
@@ -164,10 +254,15 @@ class Code(str, DBC):
 @abstract
 @serialization(with_model_type=True)
 class A(DBC):
-    """Represent A, see :class:`B` and :attr:`x`."""
+    """
+    Represent A, see :class:`B` and :attr:`x`.
+
+    :constraint AASd-001:
+        Some constraint.
+    """
 
     x: int
-    """Some x"""
+    """Some x, see :const:`Some_text`."""
 
     y: Optional[List[str]]
 
@@ -180,20 +275,35 @@ class A(DBC):
 @invariant(lambda self: len(self.z) > 0 and matches_something(self.z), "Z is non-empty and matches.")
 @invariant(lambda self: self.kind is None or self.kind in Some_kinds, "Kind is in the set.")
 @invariant(lambda self: all(len(item) < 5 for item in self.codes), "Codes are short.")
+@invariant(lambda self: is_positive(self.x), "X is positive.")
 class B(A):
     z: str
     codes: List[Code]
     kind: Optional[Kind]
 
+    @require(lambda x: x > 0, "X is positive.")
     def __init__(self, x: int, z: str, codes: List[Code], y: Optional[List[str]] = None, kind: Optional[Kind] = None) -> None:
         A.__init__(self, x, y)
         self.z = z
         self.codes = codes
-        self.kind = kind
+        self.kind = kind if kind is not None else Kind.One
 
+    @require(lambda a: a > 0)
+    @snapshot(lambda self: self.x, name="old_x")
+    @ensure(lambda result, OLD: result or OLD.old_x > 0)
     @implementation_specific
-    def do_something(self, a: int) -> bool:
-        """Do something."""
+    def do_something(self, a: int, b: Kind = Kind.One) -> bool:
+        """
+        Do something.
+
+        :param a: to be used, see :paramref:`b`
+        :param b: to be ignored
+        :returns: something
+        """
+
+    def is_big(self) -> bool:
+        """Check the size."""
+        return self.x > 10
 
 
 @verification
@@ -205,6 +315,12 @@ def matches_something(text: str) -> bool:
 
 
 @verification
+def is_positive(value: int) -> bool:
+    """Check that :paramref:`value` is positive."""
+    return value > 0
+
+
+@verification
 @implementation_specific
 def is_special(text: str) -> bool:
     """Check specially."""
@@ -212,13 +328,158 @@ def is_special(text: str) -> bool:
 
 Some_text: str = constant_str(value="some text", description="Some text.")
 
+Some_strings: Set[str] = constant_set(values=["a", "b"], description="Some strings.")
+
 Some_kinds: Set[Kind] = constant_set(values=[Kind.One, Kind.Two], description="Some kinds.")
 
-Some_strings: Set[str] = constant_set(values=["a", "b"], description="Some strings.", superset_of=[])
+More_strings: Set[str] = constant_set(values=["a", "b", "c"], description="More strings.", superset_of=[Some_strings])
 
 __version__ = "dummy"
 __xml_namespace__ = "https://dummy.com"
 '''
+
+BASE_CLASS = '''class Kind(Enum):
+    One = "one"
+    Two = "two"
+
+
+@abstract
+@serialization(with_model_type=True)
+class A(DBC):
+    x: int
+    y: Optional[List[str]]
+
+    def __init__(self, x: int, y: Optional[List[str]] = None) -> None:
+        self.x = x
+        self.y = y
+
+
+@invariant(lambda self: not (self.y is not None) or len(self.y) >= 1, "Y is either not set or non-empty.")
+@invariant(lambda self: self.x > 0, "X is positive.")
+class B(A):
+    kind: Optional[Kind]
+
+    @require(lambda x: x > 0, "X is positive.")
+    def __init__(self, x: int, y: Optional[List[str]] = None, kind: Optional[Kind] = None) -> None:
+        A.__init__(self, x, y)
+        self.kind = kind if kind is not None else Kind.One
+
+    @require(lambda a: a > 0)
+    @snapshot(lambda self: self.x, name="old_x")
+    @ensure(lambda result, OLD: result or OLD.old_x > 0)
+    @implementation_specific
+    def do_something(self, a: int, b: Kind = Kind.One) -> bool:
+        pass
+
+    def is_big(self) -> bool:
+        return self.x > 10
+
+
+__version__ = "dummy"
+__xml_namespace__ = "https://dummy.com"
+'''
+
+BASE_FUNC = '''@invariant(lambda self: len(self) > 0 and matches_something(self), "Code is non-empty and matches.")
+class Code(str, DBC):
+    pass
+
+
+@verification
+def matches_something(text: str) -> bool:
+    prefix = "[a-z]"
+    pattern = f"^{prefix}+$"
+    return match(pattern, text) is not None
+
+
+@verification
+def is_positive(value: int) -> bool:
+    return value > 0
+
+
+@verification
+@implementation_specific
+def is_special(text: str) -> bool:
+    pass
+
+
+__version__ = "dummy"
+__xml_namespace__ = "https://dummy.com"
+'''
+
+BASE_CONST = '''class Kind(Enum):
+    One = "one"
+    Two = "two"
+
+
+Some_kinds: Set[Kind] = constant_set(values=[Kind.One, Kind.Two])
+
+Some_text: str = constant_str(value="some text")
+
+Some_strings: Set[str] = constant_set(values=["a", "b"])
+
+More_strings: Set[str] = constant_set(values=["a", "b", "c"], superset_of=[Some_strings])
+
+
+__version__ = "dummy"
+__xml_namespace__ = "https://dummy.com"
+'''
+
+BASE_DOCS = '''"""Provide a meta-model, see :class:`Kind` and :const:`Some_text`."""
+
+
+class Kind(Enum):
+    """Represent a kind."""
+
+    One = "one"
+    """First, see :attr:`Two`."""
+
+    Two = "two"
+
+
+class A(DBC):
+    """
+    Represent A, see :class:`Kind` and :attr:`x`.
+
+    :constraint AASd-001:
+        Some constraint.
+    """
+
+    x: int
+    """Some x, see :attr:`A.x`."""
+
+    def __init__(self, x: int) -> None:
+        self.x = x
+
+    @implementation_specific
+    def do_something(self, a: int, b: Kind = Kind.One) -> bool:
+        """
+        Do something.
+
+        :param a: to be used, see :paramref:`b`
+        :param b: to be ignored
+        :returns: something
+        """
+
+
+@verification
+def is_positive(value: int) -> bool:
+    """
+    Check that :paramref:`value` is positive.
+
+    :param value: to be checked
+    :returns: True if positive
+    """
+    return value > 0
+
+
+Some_text: str = constant_str(value="some text", description="Some text, see :class:`Kind`.")
+
+
+__version__ = "dummy"
+__xml_namespace__ = "https://dummy.com"
+'''
+
+ROLE_BASES = [BASE_CLASS, BASE_FUNC, BASE_CONST, BASE_DOCS]
 
 
 def mutate_tokens(text: str, rng: Any) -> Optional[str]:
@@ -295,10 +556,58 @@ def targeted(ctx: Ctx) -> Iterator[Tuple[str, str]]:
         "3 < len(self.x)", "3 < len(self.x) < 5", "(lambda: True)()", "self.x[0] == 'a'", "self.x + 1 == 2",
     ]:
         yield "invariant", f'@invariant(lambda self: {inv}, "Some description.")\nclass A:\n    x: str\n\n    def __init__(self, x: str) -> None:\n        self.x = x\n' + TAIL
+    # deep nesting (the front end recurses over the input: RecursionError beyond ~250 levels is the known finding C01-F1) and huge literals
+    def _inv(e: str) -> str:
+        return f'@invariant(lambda self: {e}, "d")\nclass A:\n    x: int\n\n    def __init__(self, x: int) -> None:\n        self.x = x\n' + TAIL
+
+    for n in (100, 300):
+        yield "deep", _inv("not " * n + "self.x")
+        yield "deep", _inv("self" + ".x" * n + " > 0")
+        yield "deep", _inv("self.x" + "[0]" * n + " > 0")
+    yield "deep", _inv(" + ".join(["self.x"] * 300) + " > 0")
+    yield "deep", _inv(" and ".join(["self.x > 0"] * 300))
+    yield "deep", _inv("f(" * 90 + "self.x" + ")" * 90)
+    yield "deep", "class A:\n    x: " + "Optional[" * 90 + "int" + "]" * 90 + "\n" + TAIL
+    yield "deep", '@verification\ndef f(x: str) -> bool:\n    return match("^' + "(" * 3000 + "a" + ")" * 3000 + '$", x) is not None\n' + TAIL
+    yield "deep", '@verification\ndef f(x: str) -> bool:\n    return match("^' + "(" * 90 + "a" + ")" * 90 + '$", x) is not None\n' + TAIL
+    if ctx is not None and ctx.tier != "quick":
+        names = [f"C{1100 - i:05d}" for i in range(1100)]  # the deepest descendant sorts first
+        yield "deep", f"class {names[0]}:\n    pass\n" + "".join(f"class {names[i]}({names[i - 1]}):\n    pass\n" for i in range(1, 1100)) + TAIL
+    big = "0x" + "f" * 5000
+    for t in [f"class E(Enum):\n    a = {big}\n", f"X: Set[int] = constant_set(values=[-{big}])\n", f"X: int = constant_int(value={big})\n", f"class A:\n    x: {big}\n",
+              f"class A:\n    x: int\n\n    def __init__(self, x: int = {big}) -> None:\n        self.x = x\n", f"X: float = constant_float(value=1e400)\n",
+              "class E(Enum):\n    a = '" + "a" * 100000 + "'\n", "class " + "A" * 100000 + ":\n    pass\n"]:
+        yield "huge", t + TAIL
+    yield "huge", _inv("self.x > " + big)
     for raw in ["", "\n", "\x00", "class", "class A:\n", "def f(): pass", "x = 1", "__version__ = 1", "\ufeffclass A: pass", "class A(B): pass" + TAIL,
                 "class A(A):\n    pass" + TAIL, "class A(Enum):\n    pass" + TAIL, "class A(Enum):\n    a = 1" + TAIL, "@abstract\nclass A:\n    pass" + TAIL,
                 "class A:\n    x: Optional[Optional[int]]" + TAIL, "class A:\n    def __init__(self, *args, **kw) -> None:\n        pass" + TAIL]:
         yield "raw", raw
+
+
+class _Tier:
+    def __init__(self, tier: str) -> None:
+        self.tier = tier
+
+
+def enumerated_cases(tier: str) -> List[Tuple[str, str, Any]]:
+    """The seed independent, enumerated part of the input space (apart from the corpus and the fixtures of the repository):
+    targeted constructs, hand-written probes, and role x catalogue over the small valid bases (see ast_mutate.plan_roles), i.e.
+    every construct class of the catalogues in every role the front end distinguishes."""
+    from harness import ast_mutate, c01_probes
+
+    cases: List[Tuple[str, str, Any]] = []
+    for kind, text in targeted(_Tier(tier)):  # type: ignore
+        cases.append((kind, text, {"text": text}))
+    for text in c01_probes.probes():
+        cases.append(("probe", text, {"text": text}))
+    seen_roles: set = set()
+    for b in ROLE_BASES:
+        roles = [r for r in ast_mutate.role_names(b) if r not in seen_roles]
+        seen_roles.update(roles)
+        for label, m in ast_mutate.enumerate_roles(b, tier, roles):
+            cases.append(("role-enumerated", m, {"text": m, "mutation": label}))
+    return cases
 
 
 # --------------------------------------------------------------------------- correspondence + oracle
@@ -319,15 +628,17 @@ def _judge_and_record(ctx: Ctx, kind: str, text: str, res: Dict[str, Any], what_
 def _explore(ctx: Ctx, with_model: bool) -> None:
     scratch = ctx.scratch()
     path = scratch / "model.py"
-    n_mut = ctx.n(400, 8000)
+    n_mut = ctx.n(200, 6000)
     fx = fixtures(ctx)
     cases: List[Tuple[str, str, Any]] = []
-    for c in corpus(ID):
-        cases.append(("corpus", c["text"], {"corpus": c.get("name", "?")}))
+    if not os.environ.get("C01_NO_CORPUS"):  # (only for the self-test: show that the enumerated slice alone finds a reverted repair)
+        for c in corpus(ID):
+            cases.append(("corpus", c["text"], {"corpus": c.get("name", "?")}))
     for p in fx:
         cases.append(("fixture", p.read_text(encoding="utf-8"), {"fixture": str(p.relative_to(REPO))}))
-    for kind, text in targeted(ctx):
-        cases.append((kind, text, {"text": text}))
+    cases.extend(enumerated_cases(ctx.tier))
+    from harness import ast_mutate
+
     base = [p.read_text(encoding="utf-8") for p in fx if len(p.read_text(encoding="utf-8")) < 6000]
     for _ in range(n_mut):
         src = ctx.rng.choice(base)
@@ -338,20 +649,27 @@ def _explore(ctx: Ctx, with_model: bool) -> None:
                 m = m2 if m2 is not None else m
             cases.append(("mutant", m, {"text": m}))
     # AST-level construct mutants (harness/ast_mutate.py) of VALID base models: fixtures that load and generated models
-    from harness import ast_mutate
-
     valid_bases = _valid_bases(ctx, fx)
-    for text in valid_bases[:3]:
-        # seed-independent slice: every catalogue entry once, at rotating positions
+    for text in valid_bases[1:3]:
+        # seed-independent slice of the positional engine: every catalogue entry once, at rotating positions of two valid fixtures
         for kind, cat in ast_mutate.KINDS:
-            for entry in range(len(cat)):
+            for entry in range(0, len(cat), 1 if ctx.tier != "quick" else 4):
                 m = ast_mutate._apply(text, kind, entry * 7 + 3, entry)
                 if m is not None:
                     cases.append(("ast-enumerated", m, {"text": m}))
-    for _ in range(ctx.n(500, 12000)):
+    for _ in range(ctx.n(200, 6000)):
         got = ast_mutate.random_mutant(ctx.rng.choice(valid_bases), ctx.rng)
         if got is not None:
             cases.append(("ast-mutant", got[1], {"text": got[1], "mutation": got[0]}))
+    role_bases = [RICH_BASE] * 3 + ROLE_BASES + valid_bases[1:]
+    for _ in range(ctx.n(300, 6000)):
+        got = ast_mutate.random_role_mutant(ctx.rng.choice(role_bases), ctx.rng)
+        if got is not None and ctx.rng.random() < 0.35:  # a second, independent construct in another role
+            got2 = ast_mutate.random_role_mutant(got[1], ctx.rng)
+            if got2 is not None:
+                got = (got[0] + " + " + got2[0], got2[1])
+        if got is not None:
+            cases.append(("role-mutant", got[1], {"text": got[1], "mutation": got[0]}))
     for _ in range(ctx.n(30, 500)):
         raw = bytes(ctx.rng.randrange(256) for _ in range(ctx.rng.randrange(1, 60)))
         cases.append(("garbage", raw, {"bytes": raw.hex()}))  # type: ignore
@@ -372,7 +690,7 @@ def _explore(ctx: Ctx, with_model: bool) -> None:
         if k % 150 == 0:
             ctx.sample({"kind": kind, "input": what, "outcome": res["kind"], "msg": res.get("msg", "")[:120]})
         _judge_and_record(ctx, kind, text if isinstance(text, str) else "", res, what)
-        if res["kind"] == "error" and (kind in ("constant_set", "constant_primitive", "pattern", "raw", "garbage") or k % 10 == 0):
+        if res["kind"] == "error" and (kind in ("constant_set", "constant_primitive", "pattern", "raw", "garbage") or k % (10 if kind != "role-enumerated" else 40) == 0):
             # a rejected model through the real CLI: exit status 1 and a non-empty stderr, never an exception
             r = cli(path, scratch)
             _judge_and_record(ctx, kind, "", r, what)
@@ -410,10 +728,13 @@ def _explore(ctx: Ctx, with_model: bool) -> None:
 
 def correspond(ctx: Ctx) -> None:
     ctx.extra_cov["rule"] = (
-        "inputs = corpus + every meta_model.py fixture of dev/test_data + targeted constructs (constant_set/constant_* with 0-6 "
-        "positional arguments x keyword subsets, 55 near-miss regex patterns as plain and f-string pattern functions, 20 "
-        "degenerate invariants, raw snippets) + seeded token-level mutants of the fixtures (delete/duplicate/swap/rename/literal/"
-        "keyword/drop line/duplicate line, 30% double mutants) + random byte strings; all distinct by text, all counted non-trivial"
+        "inputs = corpus (witnesses of repaired crashes) + every meta_model.py fixture of dev/test_data + ENUMERATED seed independent part: "
+        "targeted constructs (constant_set/constant_* with 0-6 positional arguments x keyword subsets, 78 near-miss regex patterns as plain and "
+        "f-string pattern functions, 20 degenerate invariants, raw snippets), 156 hand-written probes, role x catalogue over 4 small valid bases "
+        "(harness/ast_mutate.plan_roles: ~90 roles x role specific catalogues of expressions/types/statements/decorators/argument lists/bases/"
+        "literals/docstrings/names; quick: whole catalogue for 10 roles, stride samples for the rest; thorough: everything) + SEEDED part: "
+        "token-level mutants of the fixtures (delete/duplicate/swap/rename/literal/keyword/drop line/duplicate line, 30% double), positional AST "
+        "mutants and role mutants (35% double) of valid models, random byte strings; all distinct by text, all counted non-trivial"
     )
     _explore(ctx, True)
 
